@@ -31,14 +31,10 @@ confirm)
 detect)
   pf=$1; shift; id=$(echo $pf | tr '/' '_'); w=/tmp/mut/d-$$; mkdir -p /tmp/mut /tmp/mut/out-$$; mk $w
   ( cd $w && git apply $pf ) || { echo "patch does not apply"; rmw $w; exit 2; }
-  props=${@:-$(python3 -c "import json;print(' '.join(c['property_id'] for c in json.load(open('/verif/MANIFEST.json'))['checks']))")}
   cp /verif/known_findings.txt /tmp/mut/out-$$/
-  for p in $props; do
-    ( /verif/bin/pvcheck -repo $w -out /tmp/mut/out-$$ -property $p -tier ${TIER:-quick} > /tmp/mut/out-$$/$p.log 2>&1; echo "$p exit=$?" > /tmp/mut/out-$$/$p.rc ) &
-  done
-  wait
-  caught=""
-  for p in $props; do rc=$(cat /tmp/mut/out-$$/$p.rc); case "$rc" in *exit=0) ;; *) caught="$caught $p"; grep -E "^\s+\[(violation|undecided|fatal)" /tmp/mut/out-$$/$p.log | cut -c1-220 | head -4;; esac; done
+  /verif/bin/pvcheck -repo $w -out /tmp/mut/out-$$ -property all -tier ${TIER:-quick} > /tmp/mut/out-$$/all.log 2>&1
+  caught=$(grep '^ALL caught-by:' /tmp/mut/out-$$/all.log | sed 's/ALL caught-by://')
+  grep -E "^\s+\[(violation|undecided|fatal)" /tmp/mut/out-$$/all.log | cut -c1-200 | head -${SHOW:-3}
   echo "DETECT $pf: caught-by:${caught:- NONE}"
   rmw $w; rm -rf /tmp/mut/out-$$
   ;;
